@@ -148,7 +148,8 @@ func genSocks4(t *rapid.T) pcase {
 	}
 	var nets []string
 	if rapid.Bool().Draw(t, "netFilter") {
-		nets = pick(t, "nets", []string{"10.0.0.0/8"}, []string{"0.0.0.0/1"}, []string{"192.168.0.0/16", "128.0.0.0/1"})
+		// (a list of IPv6 networks only is a filter no SOCKS4 destination - always IPv4 - can satisfy)
+		nets = pick(t, "nets", []string{"10.0.0.0/8"}, []string{"0.0.0.0/1"}, []string{"192.168.0.0/16", "128.0.0.0/1"}, []string{"::1"}, []string{"fd00::/8", "fe80::/10"}, []string{"2001:db8::/32", "10.0.0.0/8"})
 		cfg["networks"] = nets
 		if rapid.Bool().Draw(t, "ipInside") {
 			ip = [4]byte{10, ip[1], ip[2], ip[3]}
